@@ -274,6 +274,7 @@ def build(active_known=frozenset()):
     c.modifies()
     c.raises()
     c.ensures("peek returns the character at the current position and moves nothing", lambda a: z3.And(a.result == CH(pos(a.pre.st, a.self)), keeps(a, 0), nreads(a.post.st) == nreads(a.pre.st)))
+    c.ensures("what is returned is a string of at most one character", lambda a: z3.And(V.is_str(a.result), ONECHAR(a.result)))
 
     for nm, fn in (("line", LINE), ("col", COL)):
         c = op(nm)
@@ -293,6 +294,7 @@ def build(active_known=frozenset()):
     c.raises()
     c.ensures("next_char moves one character forward and returns the character now under the cursor",
               lambda a: z3.And(a.result == CH(pos(a.pre.st, a.self) + 1), keeps(a, 1)))
+    c.ensures("what is returned is a string of at most one character", lambda a: z3.And(V.is_str(a.result), ONECHAR(a.result)))
 
     c = op("advance", moves=True, reads=True)
     c.modifies("_idx")
@@ -300,6 +302,7 @@ def build(active_known=frozenset()):
     c.raises()
     c.ensures("advance moves one character forward and returns the character that was under the cursor",
               lambda a: z3.And(a.result == CH(pos(a.pre.st, a.self)), keeps(a, 1)))
+    c.ensures("what is returned is a string of at most one character", lambda a: z3.And(V.is_str(a.result), ONECHAR(a.result)))
 
     c = op("pushback", moves=True)
     c.may_raise = [(IndexError, None)]
@@ -1324,6 +1327,92 @@ def add_prefix_readers(pack):
     c.replay_without_model = True
 
 
+    # ---- byte strings: #b "..." - malformed and incomplete are told apart by whether the text has ended
+    def bytes_setup(eng, st):
+        psetup(eng, st)
+        str_models(eng)
+        # the text is finite: read(1) returns "" from some index END on, and only from there on (trusted, as in setup)
+        st.assume(END >= 0, forall_k((CH(k) == V.mk_str("")) == (k >= END), CH(k)))
+        import builtins as _b
+
+        ORD = z3.Function("ord_of", V.Val, z3.IntSort())
+        eng.models[id(_b.ord)] = Model("ord (opaque)", lambda e, s, a, k: iter([(s, SV(V.mk_int(ORD(e.lift(a[0], s)))))]))
+        eng.method_models[(str, "encode")] = Model("str.encode (opaque)", lambda e, s, a, k: iter([(s, SV(V.fresh_val("encoded")))]))
+        eng.method_models[(bytes, "join")] = Model("bytes.join (opaque)", lambda e, s, a, k: iter([(s, SV(V.fresh_val("joined_bytes")))]))
+
+        def int16(e, s, a, k):
+            # int("0x" + two characters, base=16): a byte value, or ValueError when they are not two hexadecimal digits
+            s2 = s.copy()
+            yield s, SV(V.mk_int(z3.Int(V.fresh_name("byte"))))
+            yield s2, Raise(Exc(ValueError, ("invalid literal for int() with base 16",), note="not two hexadecimal digits"))
+
+        eng.models[id(_b.int)] = Model("int(<0x..>, base=16) (a value or ValueError)", int16)
+        eng.models[id(_b.bytes)] = Model("bytes([n]) (opaque)", lambda e, s, a, k: iter([(s, SV(V.fresh_val("one_byte")))]))
+
+        def hex_byte(e, s, args, k):
+            # _read_hex_byte by contract (below): two more characters are consumed; a byte, or a syntax error that is the
+            # incomplete kind exactly when the text ended within those two characters
+            ctx_ = e.lift(args[0], s)
+            r = fld(s, ctx_, "_reader")
+            p = pos(s, r)
+            s.ghost["n_read"] = z3.Int(V.fresh_name("n_read"))
+            e.havoc_heap(s, ["_idx"])
+            for nm in ("dqv", "dqn"):
+                if nm in s.aux:
+                    s.aux[nm] = z3.Const(V.fresh_name(nm), s.aux[nm].sort())
+            s.assume(WF(e, s, r), pos(s, r) == p + 2)
+            s2, s3 = s.copy(), s.copy()
+            yield s, SV(V.fresh_val("one_byte"))
+            s2.ghost["inner_exc"] = "eof"
+            yield s2, Raise(Exc(rd.UnexpectedEOFError, ("Unexpected EOF in byte escape",), note="the text ended inside the escape"))
+            s3.ghost["inner_exc"] = "syntax"
+            yield s3, Raise(Exc(rd.SyntaxError, ("invalid byte escape",), note="malformed escape"))
+
+        if eng.cur_func_key.endswith("_read_byte_str"):
+            eng.models[id(rd._read_hex_byte)] = Model("_read_hex_byte (by contract)", hex_byte)
+
+    def own_error_kind(a):
+        """the reader's own error is the incomplete kind exactly when the text has ended under the cursor"""
+        post = a.post.st
+        is_eof = a.exc.pycls is not None and issubclass(a.exc.pycls, rd.UnexpectedEOFError)
+        if post.ghost.get("inner_exc") == "eof":
+            return z3.BoolVal(is_eof)
+        if post.ghost.get("inner_exc") == "syntax":
+            return z3.BoolVal(True)
+        ended = CH(pos(post, reader_of(a))) == V.mk_str("")
+        return ended if is_eof else z3.Not(ended)
+
+    c = pack.contract("basilisp.lang.reader:_read_hex_byte")
+    c.param("ctx", OBJ(RC))
+    c.setup(bytes_setup)
+    c.requires("the stream reader is well-formed", lambda a: WF(a.eng, a.pre.st, reader_of(a)))
+    c.raises(rd.SyntaxError)
+    c.ensures_on_raise("\\x followed by fewer than two characters before the end of the text is incomplete (UnexpectedEOFError); two characters that are not "
+                       "hexadecimal digits are malformed (plain SyntaxError)", own_error_kind)
+    c.replay(lambda m, ctx, ob: STRLIT_REPLAY)
+    c.replay_without_model = True
+
+    c = pack.contract("basilisp.lang.reader:_read_byte_str")
+    c.param("ctx", OBJ(RC))
+    c.setup(bytes_setup)
+    c.requires("the stream reader is well-formed", lambda a: WF(a.eng, a.pre.st, reader_of(a)))
+    c.raises(rd.SyntaxError)
+
+    def bytes_inv(ctx):
+        st, pre = ctx.st, ctx.entry.st
+        r = fld(pre, ctx["ctx"], "_reader")
+        return [
+            ("the stream reader stays well-formed and is still the context's reader", z3.And(WF(ctx.eng, st, r), fld(st, ctx["ctx"], "_reader") == r, ctx["reader"] == r)),
+            ("the cursor has not moved back", pos(st, r) >= pos(pre, r)),
+        ]
+
+    c.loop(0, invariant=bytes_inv, frame=["_idx"], lists=True, ghost=("n_read",), aux=("dqv", "dqn"))
+    c.ensures_on_raise("a byte string that is cut short by the end of the text - before its opening quote, inside it, inside an escape - is incomplete (UnexpectedEOFError); "
+                       "a character that may not occur in it is malformed (plain SyntaxError): the kind of the error says whether more text could help", own_error_kind)
+    c.replay(lambda m, ctx, ob: STRLIT_REPLAY)
+    c.replay_without_model = True
+
+
 STRLIT_REPLAY = r'''
 from basilisp.lang import reader
 bad = []
@@ -1340,6 +1429,8 @@ def kind(text):
 for text, want in (('"abc', "incomplete"), ('"ab\\', "incomplete"), ('"ab\\u12', "incomplete"), ('"ab\\u', "incomplete"), ('"ab\\q"', "malformed"), ('"\\u12 "', "malformed"),
                    ('"\\uFFFFFFFF"', "malformed"), ('"\\u00110000"', "malformed"), ('"\\u0041"', "ok"), ('"a\\nb"', "ok"),
                    ("#:a", "incomplete"), ("#:a ", "incomplete"), ("#:a 1", "malformed"), ("#:a{:b 1}", "ok"), ("#:a {:b 1}", "ok"), ("#:a{:b", "incomplete"),
+                   ('#b', "incomplete"), ('#b ', "incomplete"), ('#b "ab', "incomplete"), ('#b "a\\', "incomplete"), ('#b "\\x', "incomplete"), ('#b "\\x4', "incomplete"),
+                   ('#b "\\xzz"', "malformed"), ('#b "\u00e9"', "malformed"), ('#b 5', "malformed"), ('#b "a\\x41\\n"', "ok"),
                    ("\\", "incomplete"), ("\\a", "ok"), ("\\newline", "ok"), ("#inst 5", "malformed"), ("#inst \"x\"", "malformed"), ("#inst \"2020-01-01T00:00:00Z\"", "ok")):
     got = kind(text)
     if got != want:
